@@ -22,6 +22,7 @@ import QlibcModel.Str.Ip4Lemmas
 import QlibcModel.Str.EmailLemmas
 import QlibcModel.Str.FmtLemmas
 import QlibcModel.Str.UniqueLemmas
+import QlibcModel.Shapes.Str
 
 namespace Qlibc.Props.C19
 open Qlibc Qlibc.Str
